@@ -118,6 +118,8 @@ pub struct Run<'a> {
     /// deliver stdin in writes of this many bytes with a short pause in between (a slow producer: the tool's reads
     /// return less than it asked for)
     pub stdin_chunk: Option<usize>,
+    /// very large inputs without holding them in memory: `unit` written `times` times, then `tail`
+    pub stdin_repeat: Option<(Vec<u8>, usize, Vec<u8>)>,
 }
 impl<'a> Run<'a> {
     pub fn new<S: AsRef<str>>(args: &[S]) -> Self {
@@ -130,7 +132,12 @@ impl<'a> Run<'a> {
             tmpdir: None,
             stdout_pipe_size: None,
             stdin_chunk: None,
+            stdin_repeat: None,
         }
+    }
+    pub fn stdin_repeat(mut self, unit: Vec<u8>, times: usize, tail: Vec<u8>) -> Self {
+        self.stdin_repeat = Some((unit, times, tail));
+        self
     }
     pub fn stdin_chunk(mut self, n: usize) -> Self {
         self.stdin_chunk = Some(n.max(1));
@@ -165,7 +172,7 @@ impl<'a> Run<'a> {
         let start = Instant::now();
         let mut cmd = Command::new(cli_bin());
         cmd.args(&self.args)
-            .stdin(if self.stdin.is_some() { Stdio::piped() } else { Stdio::null() })
+            .stdin(if self.stdin.is_some() || self.stdin_repeat.is_some() { Stdio::piped() } else { Stdio::null() })
             .stdout(Stdio::piped())
             .stderr(Stdio::piped())
             .env("NO_COLOR", "1")
@@ -198,6 +205,24 @@ impl<'a> Run<'a> {
                         }
                     }
                 }
+                drop(si);
+            }));
+        }
+        if let Some((unit, times, tail)) = self.stdin_repeat.clone() {
+            let mut si = child.stdin.take().unwrap();
+            stdin_thread = Some(std::thread::spawn(move || {
+                // write in blocks of about 1 MiB
+                let per = (1usize << 20) / unit.len().max(1) + 1;
+                let block: Vec<u8> = unit.iter().copied().cycle().take(unit.len() * per).collect();
+                let mut left = times;
+                while left > 0 {
+                    let k = left.min(per);
+                    if si.write_all(&block[..unit.len() * k]).is_err() {
+                        return;
+                    }
+                    left -= k;
+                }
+                let _ = si.write_all(&tail);
                 drop(si);
             }));
         }
